@@ -244,7 +244,7 @@ WALL = [{"entry": "Retry", "wall": "jump", "wallgroup": "s"},
 for _p in ("C01", "C02", "C03", "C04", "C05", "C10", "C11", "C13", "C14", "C16"):
     profile(_p, mc=f"RetryMC_{_p}.cfg", export=f"RetryMC_{_p}x.cfg",
             variants=WALL if _p == "C02" else (FOUR + TIMEOUT_VARIANTS if _p in ("C13", "C01") else FOUR),
-            n_random={"quick": 1500, "thorough": 40000})
+            n_random={"quick": 1500, "thorough": 30000})
 
 
 def export_behaviours(cfgfile: str, tag: str, module: str = "RetryMC.tla"):
@@ -329,6 +329,29 @@ def check(prop: str, tier: str) -> Report:
     nonconf = judge(rep, prop, mism, v1, "S->C replay of a TLC behaviour")
     nonconf_r = judge(rep, prop, rand, v2, "C->S random scenario")
     extra_cov: dict = {}
+    sim_cov: dict = {}
+    if tier == "thorough":
+        # the full product of all dimensions, explored by random simulation: TLC checks every
+        # monitor along each random behaviour and exports it; all of them are replayed
+        sim = run_tlc("RetryMC.tla", "RetryMC_FULL.cfg", simulate="num=2500", depth=300,
+                      seed=seed() + 3, tag=f"{prop}-sim", timeout=3000)
+        if not sim.ok:
+            raise Machinery(f"simulation of the full product: M violates {sim.violated}\n{sim.output[-2000:]}")
+        sconfigs = sim.tagged["CONFIGS"][0][0]
+        seen, sbehs = set(), []
+        for b in sim.tagged.get("BEH", []):
+            key = json.dumps(b[0], sort_keys=True)
+            if key not in seen:
+                seen.add(key)
+                sbehs.append(b[0])
+        n_sim, smism = replay_behaviours(sconfigs, sbehs, variants)
+        sw = [t for t in smism if t.get("walldiff")]
+        smism = [t for t in smism if not t.get("walldiff")]
+        v5 = tlc_validate("RetryTrace", smism, f"{prop}-simm") if smism else []
+        judge(rep, prop, smism, v5, "S->C replay of a simulated behaviour of the full product")
+        n_replayed += n_sim
+        sim_cov = {"simulated_full_product_behaviours": len(sbehs), "simulated_states_checked": sim.generated,
+                   "simulated_replay_mismatches": len(smism)}
     if prop == "C01":
         # overlapping runs on ONE async policy object: run A is suspended (in its operation or its
         # back-off sleep) while run B runs to the end; no counter may leak between them
@@ -397,7 +420,7 @@ def check(prop: str, tier: str) -> Report:
         "exhaustive": True, "canary": "phantom invocation rejected",
         "samples": [{"cfg": configs[behs[i]["c"] - 1], "predicted_and_observed_trace": behs[i]["h"]}
                     for i in (0, len(behs) // 2)] + [{"random_scenario_trace": rand[0]["ev"][:14]}],
-        **extra_cov,
+        **extra_cov, **sim_cov,
     })
     rep.assumptions += [
         "virtual monotonic clock, whole ticks of 2**-6 s; the clock advances only inside the "
